@@ -13,8 +13,9 @@ MATCHERS = {}
 
 
 def regen():
-    from translate import named, strhelpers
+    from translate import named, strhelpers, parsersrc
     named.generate()
+    parsersrc.generate()        # CmGen/ParserSrc.lean: the string branch of parse_color_to_rgb as it reads now (CmProps/C07parse.lean)
     strhelpers.generate()       # CmGen/StrHelpers.lean: the parser's string-to-number helpers as they read now (CmProps/C07tie.lean)
 
 
@@ -79,6 +80,8 @@ def check(run):
     run.proof = proof_status("C07", regenerate=regen)
     from translate import strhelpers as _sh
     run.extra["source_translation"] = _sh.summary()
+    from translate import parsersrc as _psrc
+    run.extra["source_translation_parser"] = _psrc.summary()
     q = run.quick()
     repo_import()
     from cm_colors.core.color_parser import parse_color_to_rgb
